@@ -285,7 +285,25 @@ func tcpInput(stream []byte, method, shape string) streamInput {
 func checkTCP(r *hk.Run, stream []byte, method, shape string, dumpToo bool) {
 	accepted, selfDel, complete, code, leftover := refFinal(stream, method)
 	if accepted && code == 101 {
-		r.Count("tcp.skipped-101")
+		// 101 Switching Protocols: the body handed to the caller is the connection itself (what is
+		// buffered behind the head, then the socket).  Outside the Coq model; oracle only: the peer
+		// closes after writing, both clients must hand out the same head and the same bytes.
+		a := tcpObserve(tcpClients[0], stream, method, false, false)
+		b := tcpObserve(tcpClients[1], stream, method, false, false)
+		r.Count("tcp.101-cells")
+		if a.Hung {
+			r.Count("tcp.skipped-reference-hangs")
+			return
+		}
+		if a.key() != b.key() {
+			field := diffFields(a.O, b.O)
+			if b.Hung {
+				field = "hang"
+			}
+			r.Fail(hk.Failure{Sig: "h1tcp:" + field + ":101:" + shape,
+				What:  "101 Switching Protocols over a raw TCP peer: the fork's client differs from net/http's client",
+				Input: tcpInput(stream, method, shape), Got: b, Want: a})
+		}
 		return
 	}
 	// exactly one complete self-delimited final message: keep the connection open and see
@@ -382,6 +400,10 @@ func tcpFixed() []struct{ data, shape string } {
 		{"HTTP/1.1 200 OK\r\nX-Big: " + strings.Repeat("v", 5000) + "\r\nContent-Length: 2\r\n\r\nhi", "tcp-big-header"},
 		{"HTTP/1.1 200 OK\r\nTransfer-Encoding: chunked\r\n\r\n0\r\nX-T: " + strings.Repeat("t", 4200) + "\r\n\r\n", "tcp-big-trailer"},
 		{ok + "HTTP/1.1 200 OK\r\nContent-Length: 2\r\n\r\nno", "tcp-pipelined-unsolicited"},
+		{"HTTP/1.1 101 Switching Protocols\r\nUpgrade: x\r\nConnection: Upgrade\r\n\r\nraw bytes of the other protocol", "tcp-101-with-bytes"},
+		{"HTTP/1.1 101 Switching Protocols\r\nUpgrade: x\r\nConnection: Upgrade\r\n\r\n", "tcp-101-bare"},
+		{"HTTP/1.1 100 Continue\r\n\r\nHTTP/1.1 101 Switching Protocols\r\nContent-Length: 3\r\n\r\nabcdef", "tcp-100-then-101-with-cl"},
+		{"HTTP/1.1 101 Switching Protocols\r\nTransfer-Encoding: chunked\r\n\r\n2\r\nhi\r\n0\r\n\r\n", "tcp-101-chunked"},
 		{"", "tcp-empty"},
 		{"HTTP/1.1 200 OK\r\nCo", "tcp-truncated-header"},
 		{"HTTP/1.1 2x0 OK\r\n\r\n", "tcp-bad-code"},
